@@ -122,7 +122,7 @@ Theorem C12_checked_main_is_integer : forall src p d,
 Proof. exact CheckFixed.check_main_i64. Qed.
 Print Assumptions C12_checked_main_is_integer.
 
-(* REGRESSION (former finding call-to-main-typing, repaired in /repo by <commitmain>).  The unguarded statement (and its
+(* REGRESSION (former finding call-to-main-typing, repaired in /repo by f929eb7).  The unguarded statement (and its
    Barendregt-guarded form) was FALSE of the translation before the fix ([compile_prog_before_fix]):
    corpus/fun/call_main_nontail.sc is accepted, well-typed by the rules, satisfies the Barendregt condition and has no
    shadowing risk; its OLD translation called `main(0, mu~ r. ..)` against `def main(n: prd i64)`: wrong number of
